@@ -5,8 +5,10 @@ package main
 
 import (
 	"go/ast"
+	"go/constant"
 	"go/token"
 	"go/types"
+	"sort"
 
 	"golang.org/x/tools/go/cfg"
 )
@@ -303,4 +305,85 @@ func classifyErrorUse(info *types.Info, fnBody *ast.BlockStmt, call *ast.CallExp
 		return ErrSwallowed, "result ignored"
 	}
 	return ErrSwallowed, "unrecognised use of the error result"
+}
+
+// guardConstSet returns the set of string constants under which the first call selected by isTarget is
+// reached inside root: the constants an enclosing if-condition compares one operand with (joined by ||), or
+// the constants of the enclosing case clause of a tagged switch. Constants are resolved through the type
+// information (literals, named constants, imported constants), so the way they are spelled does not matter.
+func guardConstSet(info *types.Info, root ast.Node, isTarget func(*ast.CallExpr) bool) []string {
+	var stack []ast.Node
+	var out []string
+	done := false
+	constOf := func(e ast.Expr) (string, bool) {
+		if tv, ok := info.Types[e]; ok && tv.Value != nil && tv.Value.Kind() == constant.String {
+			return constant.StringVal(tv.Value), true
+		}
+		return "", false
+	}
+	var condSet func(e ast.Expr) []string
+	condSet = func(e ast.Expr) []string {
+		e = ast.Unparen(e)
+		be, ok := e.(*ast.BinaryExpr)
+		if !ok {
+			return nil
+		}
+		switch be.Op {
+		case token.LOR:
+			a, b := condSet(be.X), condSet(be.Y)
+			if a == nil || b == nil {
+				return nil
+			}
+			return append(a, b...)
+		case token.EQL:
+			if s, ok := constOf(be.X); ok {
+				return []string{s}
+			}
+			if s, ok := constOf(be.Y); ok {
+				return []string{s}
+			}
+		}
+		return nil
+	}
+	ast.Inspect(root, func(n ast.Node) bool {
+		if done {
+			return false
+		}
+		if n == nil {
+			stack = stack[:len(stack)-1]
+			return true
+		}
+		stack = append(stack, n)
+		if call, ok := n.(*ast.CallExpr); ok && isTarget(call) {
+			done = true
+			for i := len(stack) - 2; i >= 0; i-- {
+				switch x := stack[i].(type) {
+				case *ast.IfStmt:
+					if i+1 < len(stack) && stack[i+1] == ast.Node(x.Body) {
+						if vs := condSet(x.Cond); len(vs) > 0 {
+							out = vs
+							return false
+						}
+					}
+				case *ast.CaseClause:
+					var vs []string
+					for _, e := range x.List {
+						if s, ok := constOf(e); ok {
+							vs = append(vs, s)
+						}
+					}
+					if len(vs) > 0 && len(vs) == len(x.List) {
+						out = vs
+						return false
+					}
+				case *ast.FuncLit:
+					return false
+				}
+			}
+			return false
+		}
+		return true
+	})
+	sort.Strings(out)
+	return out
 }
